@@ -602,9 +602,10 @@ def check_ob(ctx: RuleCtx, an: Analyzer, ff: FuncFlow, ob: Ob, siblings: T.Seque
     elif kind == 'store':
         chain = ob.sink[1]
         stores = ff.stores(chain)
-        if not stores:
+        deep = ff.deep_store_labels(chain)       # stores made by helper methods of the same object
+        if not stores and not deep:
             raise Undecided(f'{qual}: no assignment / append to {chain}')
-        labels = set()
+        labels = set(deep)
         for node, v, idx in stores:
             labels |= ff.origins_at(v, node, idx)
         sink_txt = chain
